@@ -191,7 +191,7 @@ impl Monitor for C04 {
                     ));
                     // Ref treats confidence failures of collateral as zero; the program would
                     // have errored differently, so a health rejection means all prices loaded.
-                    if h.net() > h.err.clone() && !h.any_zeroed {
+                    if h.net() > h.err.clone() && !h.any_zeroed && !h.any_uncertain {
                         out.push(viol(
                             "C04",
                             "rejected_though_healthy",
